@@ -63,12 +63,20 @@ type outcome struct {
 	panic  string
 }
 
-func build(c Case, order []int) outcome {
-	var o outcome
-	list := make([]dc.ProtocolDataCoding, 0, len(order))
+func build(c Case, order []int) (o outcome) {
+	// the candidate list is a prefix of a longer configured list (spare capacity behind it): what lies
+	// behind the candidates belongs to the caller
+	list := make([]dc.ProtocolDataCoding, 0, len(order)+2)
 	for _, i := range order {
 		list = append(list, pdc(c.Proto, c.Candidates[i]))
 	}
+	sentinel := pdc(c.Proto, 0x7777)
+	full := append(list, sentinel, sentinel)
+	defer func() {
+		if full[len(list)] != sentinel || full[len(list)+1] != sentinel {
+			o.panic = "the builder wrote into the caller's candidate slice behind the candidates it was given (spare capacity of the argument)"
+		}
+	}()
 	b := sms.NewBatchDataCodingEncoder().Protocol(map[string]sms.Protocol{"cmpp": sms.CMPP, "smpp": sms.SMPP}[c.Proto]).
 		Content(string(vk.UnHex(c.Text)), c.Ref).DataCodings(list)
 	if c.HasOrigin {
@@ -297,6 +305,12 @@ func TestBatchHuge(t *testing.T) {
 	for _, n := range []int{8416, 8500, 9000, 17000} {
 		reqs = append(reqs, req{"cmpp", []int{15}, rep("\u00c1", n)}, req{"cmpp", []int{15, 15}, rep("\u0e01", n)}, req{"cmpp", []int{15, 4}, rep("\u00c1", n)},
 			req{"smpp", []int{99}, rep("[", 2*n)}, req{"smpp", []int{0}, rep("\u20ac", 2*n)}, req{"smpp", []int{1}, rep("a", 4*n+300)})
+	}
+	// GSM 7-bit letters that take two or three octets in UTF-8: the text is longer in octets than in septets, so
+	// a limit taken from the octet count refuses (or mis-ranks) contents that fit
+	for _, n := range []int{1500, 1700, 1900, 1950} {
+		acc := rep("ma\u00f1ana y caf\u00e9 \u00bfqu\u00e9? ", n)
+		reqs = append(reqs, req{"smpp", []int{99, 3}, acc}, req{"smpp", []int{3, 99, 1}, acc}, req{"smpp", []int{99, 8}, acc}, req{"smpp", []int{99}, acc}, req{"smpp", []int{0, 8}, acc})
 	}
 	for i, r := range reqs {
 		if !env.Mine(i) {
